@@ -329,6 +329,7 @@ def inputs_from_model(path, vals):
         inp[v] = repr(ang)
     inp.pop("PI", None)
     inp.pop("EPS", None)
+    inp.pop("M", None)
     return inp
 
 
@@ -363,6 +364,10 @@ def refutes(r, goal):
     if any(p != "T" for p in r["pre"]):
         return False
     kind = goal["kind"]
+    if kind == "range":
+        # an intermediate result leaves the machine range: natively that is an overflow panic (dev profile),
+        # which the scenario's "panics exactly on the documented conditions" goal observes
+        return any(n.startswith("law/panics exactly") and v == "F" for n, v, _h in r["goals"])
     if kind == "nopanic":
         return r["panic"] is not None and not str(r["panic"]).startswith("abort")
     if r["panic"] is not None:
@@ -376,7 +381,7 @@ def refutes(r, goal):
     return False
 
 
-def try_reproduce(sc, path, goal, vals, seed, rundir, engines):
+def try_reproduce(sc, path, goal, vals, seed, rundir, engines, search=True):
     """Replay the solver's counterexample on the real code; fall back to a seeded native search for a
     concrete witness when the model itself does not reproduce (incomplete axioms for sin/cos...)."""
     attempts = []
@@ -389,6 +394,8 @@ def try_reproduce(sc, path, goal, vals, seed, rundir, engines):
                     return {"how": "solver model", "engine": eng, "inputs": dict((k, v) for k, v in r["inputs"]), "run": r}
         # keep the model's values for the boundary-defining inputs, redraw nothing: second chance with
         # the rational values rounded is the same run; go to search
+    if not search:
+        return None
     nsamp = int(os.environ.get("VERIF_SEARCH_SAMPLES", "4000"))
     for eng in engines:
         for r in run_replay(sc, eng, None, seed, nsamp, rundir):
@@ -566,9 +573,23 @@ def symx_report(prop, tier, seed, index, results, feas, meta, known):
             skipped.append(key)
             continue
         sc = next(s for s in index if s["name"] == name)
-        engines = [e for e in ("f64", "cn") if sc["has_" + e]] or ["cn"]
-        vals = get_model(pth, g if g["kind"] != "nopanic" else None, min(to_for(sc, tier), 60))
-        rep = try_reproduce(name, pth, g, vals, seed, meta["rundir"], engines)
+        engines = [e for e in ("f64", "cn") if sc["has_" + e]]
+        vals, rep = None, None
+        if sc.get("extra"):
+            # engines with a pinned symbolic parameter (machine widths): re-solve with the pin, replay there
+            for ename, pin in sc["extra"]:
+                vals = get_model(pth, g if g["kind"] != "nopanic" else None, min(to_for(sc, tier), 30), pin=[pin])
+                if vals is None:
+                    continue
+                rep = try_reproduce(name, pth, g, vals, seed, meta["rundir"], [ename], search=False)
+                if rep:
+                    break
+            if rep is None:
+                rep = try_reproduce(name, pth, g, None, seed, meta["rundir"], [e for e, _ in sc["extra"]])
+        else:
+            engines = engines or ["cn"]
+            vals = get_model(pth, g if g["kind"] != "nopanic" else None, min(to_for(sc, tier), 60))
+            rep = try_reproduce(name, pth, g, vals, seed, meta["rundir"], engines)
         entry = {"key": key, "scenario": name, "goal": g["name"], "kind": g["kind"], "paths": [pth["path"]], "solver": r["solver"], "model": {k: str(v) for k, v in (vals or {}).items()}, "reproduced": rep is not None}
         seen_keys[key] = entry
         if rep is None:
@@ -594,7 +615,7 @@ def symx_report(prop, tier, seed, index, results, feas, meta, known):
     nval = int(os.environ.get("VERIF_VALIDATE_SAMPLES", "24"))
 
     def vjob(sc):
-        eng = "cn" if sc["has_cn"] else ("f64" if sc["has_f64"] else None)
+        eng = "cn" if sc["has_cn"] else ("f64" if sc["has_f64"] else (sc["extra"][0][0] if sc.get("extra") else None))
         if eng is None:
             return sc["name"], []
         return sc["name"], run_replay(sc["name"], eng, None, seed * 1000 + 17, nval, meta["rundir"])
